@@ -8,8 +8,10 @@ import (
 	"strconv"
 	"strings"
 	"sync"
+	"time"
 
 	"github.com/parquet-go/parquet-go"
+	"github.com/parquet-go/parquet-go/deprecated"
 
 	"verifharness/core"
 )
@@ -29,9 +31,11 @@ import (
 func init() { RegisterSub("C03", "nullscan", RunC03NullScan) }
 
 // c03nsRule is appended to the rule text of the property by C03/paths (the last sub-check to run).
-const c03nsRule = "C03/nullscan: (element kind in int32,int64,float32,float64,string,bool,[16]byte; dense or strided rows) x null pattern: every bit pattern of length <= 12 placed at every offset 0..66 behind a constant or alternating filler, with and without rows after it, and random run-length patterns up to 1400 rows whose run boundaries sit at and around multiples of 64 and 8; non-trivial = the batch holds both a null and a non-null row"
+const c03nsRule = "C03/nullscan: (element kind: every entry of the null-index dispatch table - bool, int8/16/32/64, int, uint8/16/32/64, uint, float32/64, string, []byte, [5]byte, [16]byte, Int96, pointer, map, time.Time - with non-null values whose low or high bytes are zero; dense or strided rows) x null pattern: every bit pattern of length <= 12 placed at every offset 0..66 behind a constant or alternating filler, with and without rows after it, and random run-length patterns up to 1400 rows whose run boundaries sit at and around multiples of 64 and 8; non-trivial = the batch holds both a null and a non-null row"
 
-var c03nsKinds = []string{"int32", "int64", "float32", "float64", "string", "bool", "bytes16"}
+// every entry of the nullIndexFuncOf dispatch table (null.go) except struct (never null)
+var c03nsKinds = []string{"int32", "int64", "float32", "float64", "string", "bool", "bytes16",
+	"int8", "int16", "uint8", "uint16", "uint32", "uint64", "int", "uint", "bytes5", "int96", "bytes", "pointer", "map", "time"}
 
 type c03nsCase struct {
 	kind    string
@@ -75,68 +79,65 @@ var (
 		math.Float64frombits(0x7ff0000000000001), math.Float64frombits(0x0000000100000000), math.Float64frombits(0x8000000000000000)}
 	c03nsStr = []string{"a", "\x00", "zero", strings.Repeat("x", 40), "\x00\x00\x00\x00\x00\x00\x00\x00"}
 	c03nsB16 = [][16]byte{{1}, {15: 1}, {7: 0x80}, {8: 1}, {0xFF, 0xFF, 0xFF, 0xFF, 0xFF, 0xFF, 0xFF, 0xFF, 0xFF, 0xFF, 0xFF, 0xFF, 0xFF, 0xFF, 0xFF, 0xFF}}
+	// the narrow and native-width integers: values with a zero low byte / zero low half / zero
+	// high part, so that a kernel of the wrong width (or one reading past the element) decides wrong
+	c03nsI8  = []int8{1, -1, math.MinInt8, math.MaxInt8, 0x10}
+	c03nsI16 = []int16{1, -1, 0x100, -256, 0x7f00, math.MinInt16, 0x00ff}
+	c03nsU8  = []uint8{1, 0xff, 0x80, 0x10}
+	c03nsU16 = []uint16{1, 0x100, 0xff00, 0x8000, 0x00ff, 0xffff, 0x2000}
+	c03nsU32 = []uint32{1, 0x100, 0x10000, 0xffff0000, 0x80000000, 0x01000000, 0xffffffff}
+	c03nsU64 = []uint64{1, 1 << 32, 0xffffffff00000000, 1 << 63, 0x100, 0x0100000000000000}
+	c03nsInt = []int{1, -1, 1 << 32, -1 << 32, 0x100, math.MinInt64}
+	c03nsUin = []uint{1, 1 << 32, 0xffffffff00000000, 1 << 63, 0x100}
+	c03nsB5  = [][5]byte{{1}, {4: 1}, {2: 0x80}, {0xFF, 0xFF, 0xFF, 0xFF, 0xFF}}
+	c03nsI96 = []deprecated.Int96{{1, 0, 0}, {0, 0, 1}, {0, 1, 0}, {0, 0, 0x80000000}}
+	// []byte: nil is null, the empty non-nil slice is a value (the empty byte string)
+	c03nsByt = [][]byte{{}, {0}, []byte("a"), make([]byte, 0, 8)}
+	c03nsOne = int32(1)
+	c03nsZer = int32(0)
+	c03nsPtr = []*int32{&c03nsOne, &c03nsZer}
+	// maps: nil is null, the empty non-nil map is present
+	c03nsMap = []map[string]int32{{}, {"a": 1}, {"": 0}}
+	// time.Time: the zero instant is null; the epoch, one nanosecond after the zero instant (only
+	// the nanosecond field of the struct differs from zero) and instants with a location are values
+	c03nsTim = []time.Time{time.Unix(0, 0).UTC(), time.Time{}.Add(1), time.Unix(1700000000, 5).In(time.FixedZone("x", 3600)), time.Time{}.Add(time.Second)}
 )
 
-// c03nsValues builds the rows: the zero value where the pattern says null, a non-zero value of
-// the kind's pool elsewhere.
-func c03nsValues(kind string, pat []bool, salt int) any {
-	switch kind {
-	case "int32":
-		vs := make([]int32, len(pat))
-		for i, p := range pat {
-			if p {
-				vs[i] = c03nsI32[(i+salt)%len(c03nsI32)]
-			}
+// c03nsKindImpl: one element type of the nullIndexFuncOf dispatch table.
+type c03nsKindImpl struct {
+	runs  func(pat []bool, salt int, strided bool) [][3]int
+	index func(pat []bool, salt int, strided bool) []uint64
+}
+
+func c03nsRows[T any](pool []T, pat []bool, salt int) []T {
+	vs := make([]T, len(pat)) // the zero value where the pattern says null
+	for i, p := range pat {
+		if p {
+			vs[i] = pool[(i+salt)%len(pool)]
 		}
-		return vs
-	case "int64":
-		vs := make([]int64, len(pat))
-		for i, p := range pat {
-			if p {
-				vs[i] = c03nsI64[(i+salt)%len(c03nsI64)]
-			}
-		}
-		return vs
-	case "float32":
-		vs := make([]float32, len(pat))
-		for i, p := range pat {
-			if p {
-				vs[i] = c03nsF32[(i+salt)%len(c03nsF32)]
-			}
-		}
-		return vs
-	case "float64":
-		vs := make([]float64, len(pat))
-		for i, p := range pat {
-			if p {
-				vs[i] = c03nsF64[(i+salt)%len(c03nsF64)]
-			}
-		}
-		return vs
-	case "string":
-		vs := make([]string, len(pat))
-		for i, p := range pat {
-			if p {
-				vs[i] = c03nsStr[(i+salt)%len(c03nsStr)]
-			}
-		}
-		return vs
-	case "bool":
-		vs := make([]bool, len(pat))
-		for i, p := range pat {
-			vs[i] = p
-		}
-		return vs
-	case "bytes16":
-		vs := make([][16]byte, len(pat))
-		for i, p := range pat {
-			if p {
-				vs[i] = c03nsB16[(i+salt)%len(c03nsB16)]
-			}
-		}
-		return vs
 	}
-	panic("c03nsValues: " + kind)
+	return vs
+}
+
+func c03nsKindOf[T any](pool []T) c03nsKindImpl {
+	return c03nsKindImpl{
+		runs: func(pat []bool, salt int, strided bool) [][3]int {
+			return parquet.VerifOptionalRunsOf(c03nsRows(pool, pat, salt), strided)
+		},
+		index: func(pat []bool, salt int, strided bool) []uint64 {
+			return parquet.VerifNullIndexOf(c03nsRows(pool, pat, salt), strided)
+		},
+	}
+}
+
+var c03nsImpl = map[string]c03nsKindImpl{
+	"int32": c03nsKindOf(c03nsI32), "int64": c03nsKindOf(c03nsI64), "float32": c03nsKindOf(c03nsF32),
+	"float64": c03nsKindOf(c03nsF64), "string": c03nsKindOf(c03nsStr), "bool": c03nsKindOf([]bool{true}),
+	"bytes16": c03nsKindOf(c03nsB16), "int8": c03nsKindOf(c03nsI8), "int16": c03nsKindOf(c03nsI16),
+	"uint8": c03nsKindOf(c03nsU8), "uint16": c03nsKindOf(c03nsU16), "uint32": c03nsKindOf(c03nsU32),
+	"uint64": c03nsKindOf(c03nsU64), "int": c03nsKindOf(c03nsInt), "uint": c03nsKindOf(c03nsUin),
+	"bytes5": c03nsKindOf(c03nsB5), "int96": c03nsKindOf(c03nsI96), "bytes": c03nsKindOf(c03nsByt),
+	"pointer": c03nsKindOf(c03nsPtr), "map": c03nsKindOf(c03nsMap), "time": c03nsKindOf(c03nsTim),
 }
 
 func c03nsWords(pat []bool) []uint64 {
@@ -271,13 +272,13 @@ func c03nsBatch(ctx *core.Ctx, d c03nsAsker, cases []*c03nsCase) {
 			}
 			return m
 		}
-		values := c03nsValues(c.kind, c.pat, c.salt)
-		runs, pan := c03nsSafe(func() [][3]int { return parquet.VerifOptionalRuns(c.kindText(), values) })
+		impl := c03nsImpl[c.kind]
+		runs, pan := c03nsSafe(func() [][3]int { return impl.runs(c.pat, c.salt, c.strided) })
 		if pan != "" {
 			ctx.Fail("L1", "nullscan-panic kind="+c.kind, "the optional wrapper of the typed write path panicked: "+pan, detail(nil))
 			results[k].dead = true
 		}
-		words, pan := c03nsSafe(func() []uint64 { return parquet.VerifNullIndex(c.kindText(), values) })
+		words, pan := c03nsSafe(func() []uint64 { return impl.index(c.pat, c.salt, c.strided) })
 		if pan != "" {
 			ctx.Fail("L1", "null-index-panic kind="+c.kind, "the null index kernel panicked: "+pan, detail(nil))
 			results[k].dead = true
@@ -542,17 +543,14 @@ func RunC03NullScan(ctx *core.Ctx) {
 	for L := 0; L <= maxLen; L++ {
 		for bits := 0; bits < 1<<uint(L); bits++ {
 			for off := 0; off <= 66; off++ {
-				// quick: one (kind, stride, filler, tail) per placement, rotating; thorough: every kind
+				// quick: one (kind, stride, filler, tail) per placement, rotating; thorough: seven kinds
 				nk := 1
 				if ctx.Thorough() {
-					nk = len(c03nsKinds)
+					nk = 7
 				}
 				for kk := 0; kk < nk; kk++ {
 					rot++
 					kind := c03nsKinds[(rot+kk)%len(c03nsKinds)]
-					if ctx.Thorough() {
-						kind = c03nsKinds[kk]
-					}
 					filler := (rot / 7) % fillers
 					tail := tails[(rot/21)%len(tails)]
 					pat := make([]bool, 0, off+L+tail)
@@ -572,7 +570,7 @@ func RunC03NullScan(ctx *core.Ctx) {
 	}
 	// random long patterns
 	r := ctx.Rand("c03/nullscan")
-	nrand := ctx.Scale(1500, 20000)
+	nrand := ctx.Scale(600, 7000)
 	for _, kind := range c03nsKinds {
 		for _, strided := range []bool{false, true} {
 			for k := 0; k < nrand; k++ {
